@@ -153,6 +153,11 @@ def check(ctx):
         # visiting.insert (an exit taken *because* the mark is set — the cycle branch — must leave it alone: the node is still on the stack)
         vins = [i for i in v.calls if short_path(i.path) == "HashSet::insert" and recv_name(v, i) == "visiting"]
         for rm in [c for c in v.calls if short_path(c.path) in ("HashSet::remove", "HashSet::clear", "HashSet::take", "HashSet::retain", "HashSet::drain") and recv_name(v, c) == "visiting"]:
+            # ... and it releases this activation's mark only: emptying the set (or filtering it) also wipes the marks of the ancestors that are
+            # still on the stack, so a back edge to one of them is no longer seen as a cycle and the ancestor is descended into again
+            if rm.name in ("clear", "drain", "retain"):
+                r1.bad(V(r1.id, v.id, "visiting-wiped:%s" % rm.name, "visiting.%s(..) removes the in-progress marks of every node on the stack, not just this "
+                         "activation's: back edges to ancestors are not recognised afterwards" % rm.name, rm.file, rm.line))
             if vins and any(v.dominates(i.bb, rm.bb) for i in vins):
                 r1.ok("visiting.%s is dominated by this activation's visiting.insert" % rm.name)
             else:
@@ -347,6 +352,31 @@ def check(ctx):
             r5.ok("in_degree[dep.from] is incremented")
         else:
             r5.bad(V(r5.id, k.id, "in-degree-key:%s" % ",".join(sorted(seen.get("in_degree", []))), "in_degree is indexed by %s (expected dep.from)" % sorted(seen.get("in_degree", []))))
+        # the in-degree is a *count*: every store through in_degree.get_mut(..) is the old value plus / minus something, never a fresh constant
+        # (`= 1` releases a node as soon as the first of its dependencies is emitted)
+        n_st = 0
+        for b in sorted(k.reach_blocks):
+            for st in k.blocks[b]["stmts"]:
+                lhs = st.get("lhs")
+                if not (lhs and len(lhs.get("p", [])) == 1 and lhs["p"][0].get("k") == "deref" and st.get("rv", {}).get("k") == "use"):
+                    continue
+                po = k.origin({"copy": {"l": lhs["l"], "p": []}})
+                while po[0] == "call" and po[1].name in ("unwrap", "expect", "unwrap_unchecked") and po[1].args:
+                    po = k.origin(po[1].args[0])
+                if not (po[0] == "call" and short_path(po[1].path) in ("HashMap::get_mut", "HashMap::entry", "BTreeMap::get_mut") and recv_name(k, po[1]) == "in_degree"):
+                    continue
+                n_st += 1
+                vo = k.origin(st["rv"]["op"])
+                while vo[0] == "proj" and isinstance(vo[1], tuple):
+                    vo = vo[1]          # (the `.0` of a checked-arithmetic pair)
+                if vo[0] == "bin" and re.match(r"(Add|Sub)", str(vo[1])):
+                    r5.ok("in_degree is updated by %s of its old value" % vo[1])
+                else:
+                    r5.bad(V(r5.id, k.id, "in-degree-overwritten:%s" % (k.describe_origin(vo, deep=1)[:30]), "an in-degree is overwritten with `%s` instead of being "
+                             "counted up/down: a node with several dependencies is released after the first one" % k.describe_origin(vo, deep=1)[:40],
+                             st.get("file"), st.get("line")))
+        if gm and not n_st:
+            r5.notes.append("no store through in_degree.get_mut(..) recognised (the count may be kept another way)")
         # every dependency counts: the edge-building steps run for each element of the dependency list (no `continue`/filter in that loop)
         for c in gm:
             flt = []
